@@ -16,6 +16,7 @@
 """Model Modifier class that produce the final quantized TFlite model."""
 
 import copy
+import os
 
 import numpy as np
 
@@ -24,6 +25,18 @@ from ai_edge_quantizer import transformation_instruction_generator
 from ai_edge_quantizer import transformation_performer
 from ai_edge_litert import schema_py_generated  # pylint: disable=g-direct-tensorflow-import
 from tensorflow.lite.tools import flatbuffer_utils  # pylint: disable=g-direct-tensorflow-import
+
+
+def _verif_force_large_model(constant_buffer_size: int) -> bool:
+  """Verification hook (off unless AI_EDGE_QUANTIZER_VERIF=1).
+
+  Lets a test drive small models through the large-model serialization by
+  lowering its size threshold via AI_EDGE_QUANTIZER_VERIF_LARGE_MODEL_THRESHOLD.
+  """
+  if os.environ.get('AI_EDGE_QUANTIZER_VERIF') != '1':
+    return False
+  threshold = os.environ.get('AI_EDGE_QUANTIZER_VERIF_LARGE_MODEL_THRESHOLD')
+  return threshold is not None and constant_buffer_size > int(threshold)
 
 
 class ModelModifier:
@@ -70,6 +83,8 @@ class ModelModifier:
         instructions, quantized_model
     )
     constant_buffer_size = self._process_constant_map(quantized_model)
+    if _verif_force_large_model(constant_buffer_size):
+      return self._serialize_large_model(quantized_model)
     if constant_buffer_size > 2**31 - 2**20:
       return self._serialize_large_model(quantized_model)
     else:
